@@ -196,6 +196,9 @@ def classifyColl (c : Ctx) (s : State) (cmd : List Bytes) : Option String :=
   else if n == b "sintercard" && (match cmd.findIdx? (fun t => eqFold t (b "limit")) with
       | some i => i ≥ 2 && ((cmd.take i).drop 1).eraseDups.length == 1
       | none => false) then some "sintercard-single-key-ignores-limit"
+  else if n == b "sintercard" && (match cmd.findIdx? (fun t => eqFold t (b "limit")) with
+      | some i => ((cmd.take i).drop 1).length ≥ 3
+      | none => false) then some "sintercard-limit-over-three-sets-stops-early"
   else if n == b "sadd" && lv.isNone && (cmd.drop 2).eraseDups.length != (cmd.drop 2).length then some "sadd-new-key-counts-duplicates"
   else if (n == b "sunion" || n == b "sunionstore") &&
           ((if n == b "sunion" then cmd.drop 1 else cmd.drop 2).any fun k => (liveVal c s k).isNone) then some "sunion-absent-key-rejected"
